@@ -126,7 +126,15 @@ func checkUnit(r *sup.CaseResult, top []*Cmd, text string, l *plog, sr surround,
 			// behind a failing command of its loop: nothing of it may begin (checked through exp below)
 			continue
 		}
-		if !l.anyBegan(t.BodyProbes) {
+		// a body whose first command is a task in a sandbox that fails without running anything has
+		// no probe that may begin: nothing is missing then, and the handlers are still judged
+		bodyExpected := false
+		for _, id := range t.BodyProbes {
+			if m.exp[id] != expNot {
+				bodyExpected = true
+			}
+		}
+		if !l.anyBegan(t.BodyProbes) && bodyExpected {
 			if t.Mode == expMust {
 				r.Violate("body-missing", "no command of the body began: "+ctxOf(t), wit())
 			}
